@@ -420,6 +420,105 @@ func runC05(r *engine.Run) {
 	}
 	r.Extra("unspecified_states_pruned", totalPruned)
 
+	// ---- whole key sets: sender and receiver each hold (FNwkSIntKey, SNwkSIntKey) from {K1, K2, the
+	// all-zero key}^2: the receiver accepts exactly when the specification MIC under its key set equals the
+	// one the sender computed (a value like the all-zero key is a key, not "no key")
+	keyAlpha := [][]byte{c05KeyF, c05KeyS, make([]byte, 16)}
+	spK := (&engine.Space{}).Dim("sender F", 3).Dim("sender S", 3).Dim("receiver F", 3).Dim("receiver S", 3).Dim("direction", 2).Dim("version", 2)
+	r.PartDims("tamper/key-set-pairs", spK.Desc(), spK.N(), func(c *engine.Case) {
+		var ch [6]int
+		spK.Decode(c.Index, ch[:])
+		uplink := ch[4] == 1
+		v11 := ch[5] == 1
+		f := spec.DataFrame{MType: 3, DevAddr: 0x01AB02CD, FCnt: 0x00030007, ADR: true, HasPort: true, FPort: 10, FRM: fillBytes(9, 0x4E)}
+		if uplink {
+			f.MType = 2
+		}
+		mk := func(fk, sk []byte) micParams {
+			m := micParams{v11: v11, confFCnt: 0, txDR: 3, txCh: 2, fKey: fk, sKey: sk}
+			if !v11 {
+				if uplink {
+					m.sKey = fk
+				} else {
+					m.fKey = sk
+				}
+			}
+			return m
+		}
+		snd, rcv := mk(keyAlpha[ch[0]], keyAlpha[ch[1]]), mk(keyAlpha[ch[2]], keyAlpha[ch[3]])
+		p, err := buildFrame(f, nil, nil)
+		if err != nil {
+			c.Fail("harness/build", err.Error(), nil)
+			return
+		}
+		c.Eval()
+		if err := libSetMIC(p, uplink, snd); err != nil {
+			c.Fail("tamper/key-set-pairs/set-mic", err.Error(), nil)
+			return
+		}
+		sent, _ := specMIC(f, snd)
+		if [4]byte(p.MIC) != sent {
+			c.Outcome("tamper/key-set-pairs/sender-mic-differs-from-spec(see C02)")
+			return
+		}
+		want, _ := specMIC(f, rcv)
+		ok, err := libValidateMIC(p, uplink, rcv)
+		c.NonTrivial()
+		if err != nil || ok != (want == sent) {
+			c.Fail("tamper/key-set", fmt.Sprintf("sender keys F=%x S=%x, receiver keys F=%x S=%x (v1.1=%v uplink=%v): Validate=%v err=%v; the specification MIC under the receiver's keys is %x, the frame carries %x", snd.fKey, snd.sKey, rcv.fKey, rcv.sKey, v11, uplink, ok, err, want[:], sent[:]), nil)
+		}
+	})
+
+	// ---- an exchange whose frame carries the MIC 00000000 / ffffffff (witness.go): the sender's plaintext is
+	// chosen so that the encrypted payload is the witness's; the receiver validates, decrypts and obtains it
+	r.Part("exchange/conspicuous-mic-value", uint64(len(witnessDownlink)), func(c *engine.Case) {
+		w := witnessDownlink[c.Index]
+		appSKey := c05KeyA
+		plain := spec.XOR(w.frm, spec.Keystream(appSKey, false, 0x01020304, w.fcnt, len(w.frm)))
+		f := spec.DataFrame{MType: 3, DevAddr: 0x01020304, FCnt: w.fcnt, HasPort: true, FPort: 10, FRM: w.frm}
+		m := micParams{v11: false, fKey: witnessKey, sKey: witnessKey}
+		if got, _ := specMIC(f, m); got != w.mic {
+			r.HarnessError("witness downlink: the specification MIC is %x, not %x", got[:], w.mic[:])
+			return
+		}
+		c.Eval()
+		g := f
+		g.FRM = plain
+		p, err := buildFrame(g, nil, nil)
+		if err != nil {
+			c.Fail("harness/build", err.Error(), nil)
+			return
+		}
+		if err := p.EncryptFRMPayload(keyOf(appSKey)); err != nil {
+			c.Fail("witness/encrypt", err.Error(), nil)
+			return
+		}
+		if err := libSetMIC(p, false, m); err != nil || [4]byte(p.MIC) != w.mic {
+			c.Fail("witness/set-mic", fmt.Sprintf("sender's MIC %x (err %v), specification %x", p.MIC[:], err, w.mic[:]), nil)
+			return
+		}
+		wire, err := p.MarshalBinary()
+		if err != nil {
+			c.Fail("witness/marshal", err.Error(), nil)
+			return
+		}
+		var q lorawan.PHYPayload
+		if err := q.UnmarshalBinary(wire); err != nil {
+			c.Fail("witness/decode", err.Error(), nil)
+			return
+		}
+		c.NonTrivial()
+		qm := q.MACPayload.(*lorawan.MACPayload)
+		qm.FHDR.FCnt = w.fcnt
+		if ok, err := libValidateMIC(&q, false, m); err != nil || !ok {
+			c.Fail("witness/receiver-rejects-genuine-frame", fmt.Sprintf("frame %x (its correct MIC is %x): the receiver with the sender's keys and counter gets Validate=%v err=%v", wire, w.mic[:], ok, err), nil)
+			return
+		}
+		if err := q.DecryptFRMPayload(keyOf(appSKey)); err != nil || len(qm.FRMPayload) != 1 || !bytes.Equal(qm.FRMPayload[0].(*lorawan.DataPayload).Bytes, plain) {
+			c.Fail("witness/payload", fmt.Sprintf("receiver obtains %s (err %v), sent %x", deepPrint(qm.FRMPayload), err, plain), nil)
+		}
+	})
+
 	// ---- tamper (E1)
 	tam := append(append([]c05Init(nil), inits...), c05Inits(true)...)
 	r.PartDims("tamper", []string{fmt.Sprintf("frame:%d (shapes x direction x version x confirmed)", len(tam)), "every bit of the serialised frame", "parameter mismatches: 128+128 key bits, 16 upper FCnt bits, ConfFCnt, txDR, txCh, version, direction"}, uint64(len(tam)), func(c *engine.Case) {
